@@ -35,6 +35,7 @@ for d in sorted(glob.glob("/verif/seeded/C*-*")):
         "evaluation": [l for l in keep if not l.startswith("SEED")][:12],
         "checks_against_patched_tree": checks,
         "caught": any(c["exit_code"] == 1 for c in checks.values()),
+        "caught_by_the_property_it_was_written_against": checks.get(name.split("-")[0], {}).get("exit_code") == 1,
     }
     json.dump(meta, open(os.path.join(d, "meta.json"), "w"), indent=1)
     with open(log, "w") as f:
